@@ -315,6 +315,27 @@ def view_of(objs, cfg):
     return out, sv
 
 
+def inspect_all(objs, cfg):
+    """what a monitoring job might do in the middle of a run: call the read-only inspection API of
+    every scheduler (browsing, listing, export).  None of it may disturb the run; exceptions are
+    ignored here (C15-C20 are about their results), only the run's behaviour is being observed"""
+    for i, o in enumerate(objs):
+        if not cfg["jobs"][i]["sched"]:
+            continue
+        calls = [lambda: list(o.entry_jobs()), lambda: list(o.exit_jobs()), o.check_cycles,
+                 lambda: list(o.topological_order()), o.repr_entries, o.repr_exits, o.stats,
+                 lambda: list(o.iterate_jobs()), o.list, o.list_safe, o.debrief, o.dot_format,
+                 lambda: repr(o), o.why, o.failed_time_out, o.failed_critical]
+        for j in list(o.jobs):
+            calls += [lambda j=j: o.predecessors(j), lambda j=j: list(o.successors(j)),
+                      lambda j=j: o.predecessors_upstream(j), lambda j=j: o.successors_downstream(j)]
+        for c in calls:
+            try:
+                c()
+            except Exception:       # noqa
+                pass
+
+
 def run_config(cfg):
     """-> dict(log=[...], outcome=..., final=...)"""
     rec = Recorder()
@@ -372,6 +393,8 @@ def run_config(cfg):
             def on_jump(t):
                 jv, sv = view_of(objs, cfg)
                 rec.rec("poll", jv, sv)
+                if cfg.get("inspect"):
+                    inspect_all(objs, cfg)
                 rec.rec("tick", t)
 
             loop.on_jump = on_jump
